@@ -167,7 +167,26 @@ def build_and_audit(prop_modules, need_driver=True, timeout=3000):
                 fh.write("import %s\n" % m)
             for nme in names:
                 fh.write("#print axioms %s\n" % nme)
-        rc3, out3 = sh(["lake", "env", "lean", f], cwd=LEAN, timeout=timeout)
+        # the audit's output is a function of the compiled modules: re-use it while their .olean files are unchanged
+        h = hashlib.sha1()
+        for m in prop_modules:
+            ol = os.path.join(LEAN, ".lake", "build", "lib", "lean", m.replace(".", "/") + ".olean")
+            try:
+                with open(ol, "rb") as fh_:
+                    h.update(fh_.read())
+            except OSError:
+                h.update(b"missing")
+        h.update("\n".join(names).encode())
+        cache = os.path.join(audit_dir, "cache_%s.txt" % h.hexdigest()[:24])
+        if os.path.exists(cache):
+            rc3, out3 = 0, open(cache, encoding="utf-8").read()
+            info["audit_cached"] = True
+        else:
+            rc3, out3 = sh(["lake", "env", "lean", f], cwd=LEAN, timeout=timeout)
+            if rc3 == 0:
+                with open(cache + ".tmp%d" % os.getpid(), "w", encoding="utf-8") as fh_:
+                    fh_.write(out3)
+                os.replace(cache + ".tmp%d" % os.getpid(), cache)
         os.unlink(f)
         flat = re.sub(r"\s+", " ", out3)
         for nme in names:
@@ -204,7 +223,7 @@ def run_driver(lines, timeout=3000):
     return out
 
 
-def source_literals(pid):
+def source_literals(pid, exact_first=False):
     """integer literals (and their neighbours) appearing in the source files the property is anchored in:
     inputs for the literal-directed probe (catches `if x == <magic>` style changes that random inputs miss)"""
     import ast
@@ -234,17 +253,25 @@ def source_literals(pid):
         for d in (-1, 0, 1):
             if v + d >= 0:
                 out.add(v + d)
+    exact = sorted(v for v in lits if v >= 0)
+    if exact_first:
+        return (exact + [v for v in sorted(out) if v not in lits])[:400]
     return sorted(out)[:400]
 
 
-def literal_probe(mod, pid, impl, known):
+def literal_probe(mod, pid, impl, known, max_ops=None):
     """run the property's operations at the source's own literals; returns oracle failures"""
     fn = getattr(mod, "literal_ops", None)
     if fn is None:
         return [], 0
     fails = []
     n = 0
-    for lit in source_literals(pid):
+    lits = source_literals(pid, exact_first=max_ops is not None)   # quick tier: the literals themselves first, then
+    if max_ops is not None:                                         # their neighbours while the budget lasts
+        lits = [v for v in lits if v <= 2 ** 16] + [v for v in lits if v > 2 ** 16]
+    for lit in lits:
+        if max_ops is not None and n >= max_ops:
+            break
         for line in fn(lit):
             n += 1
             body = line.split(" #")[0]
@@ -373,7 +400,21 @@ def decide(pid, tier, seed, replay, t0):
     branches = {}
     for c in cases:
         branches[c[1]] = branches.get(c[1], 0) + 1
-    impl_out = [impl.run(l) for l in lines]
+    impl_out, impl_t = [], []
+    for l in lines:
+        t_l = time.time()
+        impl_out.append(impl.run(l))
+        impl_t.append(time.time() - t_l)
+
+    def within_budget(idx, seconds):
+        """prefix of idx whose operations took at most `seconds` in the main run (the re-runs below cost as much)"""
+        out, acc = [], 0.0
+        for i in idx:
+            acc += impl_t[i]
+            if acc > seconds and out:
+                break
+            out.append(i)
+        return out
     disagreements = []
     model_out = None
     if info.get("driver_ok"):
@@ -427,9 +468,9 @@ def decide(pid, tier, seed, replay, t0):
         idx_ok = [i for i, o in enumerate(impl_out) if o.startswith("ok")]
         rng2 = random.Random(seed + 77)
         n_err, n_ok = (150, 60) if tier == "quick" else (1500, 600)
-        pick = sorted(set(rng2.sample(idx_err, min(n_err, len(idx_err))) + rng2.sample(idx_ok, min(n_ok, len(idx_ok)))))
-        budget = 0.0
+        pick = rng2.sample(idx_err, min(n_err, len(idx_err))) + rng2.sample(idx_ok, min(n_ok, len(idx_ok)))
         pick = [i for i in pick if len(lines[i]) < 20000]
+        pick = sorted(set(within_budget(pick, 6.0 if tier == "quick" else 300.0)))
         if pick:
             code = ("import sys; sys.path.insert(0, %r)\nimport impl\n"
                     "for l in sys.stdin.read().split('\\n'):\n"
@@ -464,7 +505,8 @@ def decide(pid, tier, seed, replay, t0):
     try:
         rng3 = random.Random(seed + 99)
         cand = [i for i in range(len(lines)) if len(lines[i]) < 20000]
-        pick = sorted(rng3.sample(cand, min(len(cand), 400 if tier == "quick" else 4000)))
+        pick = rng3.sample(cand, min(len(cand), 400 if tier == "quick" else 4000))
+        pick = sorted(within_budget(pick, 6.0 if tier == "quick" else 300.0))
         n_alt = 0
         for i in pick:
             o2 = impl.run_alt(lines[i])
@@ -487,9 +529,10 @@ def decide(pid, tier, seed, replay, t0):
     # ---- something broke: search harder for a concrete failing input
     searched = 0
     probed = 0
-    if tier == "thorough" or ((problems or disagreements) and not failures):
-        lf, probed = literal_probe(mod, pid, impl, known)
-        failures += lf
+    lf, probed = literal_probe(mod, pid, impl, known,
+                               max_ops=None if (tier == "thorough" or problems or disagreements) else
+                               getattr(mod, "LITERAL_BUDGET", 160))
+    failures += lf
     if (problems or disagreements) and not failures:
         ds = getattr(mod, "deep_search", None)
         cand = [d["line"] for d in disagreements]
